@@ -22,7 +22,7 @@ ASSUMPTIONS = ['node Readable.from([Buffer...], {objectMode:false}) delivers the
 
 ALPHABET = ['a', '"', ',', '\n', '\r', '#']
 POLICIES = [('simple', ','), ('quoted', ','), ('quoted_rfc', ',')]
-UTF8_SAMPLES = ['é,"ж\r\n€",𝄞\r', '\ufeffa,é\r\n"\r\n"', '#ж\n𝄞"\r\r\n"é', '€\r\n\ufeff\r\n#', 'a\r\nb\r\nc\r\n']
+UTF8_SAMPLES = ['a,\ufffd\r\n\ufffd"x', 'é,"ж\r\n€",𝄞\r', '\ufeffa,é\r\n"\r\n"', '#ж\n𝄞"\r\r\n"é', '€\r\n\ufeff\r\n#', 'a\r\nb\r\nc\r\n']
 BAD_SAMPLES = [b'a,\xffb\n', b'\xc3', b'a\n\xe2\x82', b'\x80a,b', b'ab\xf0\x9d\x84\n', b'\xc3\xa9,\xa9\r\n']
 
 
@@ -151,6 +151,16 @@ def shard_samples(shard, nshards, tier, seed, scratch):
                         cfg = dict(encoding='utf-8', delim=d, policy=p, comment_prefix=c, has_header=h)
                         run_jobs(drv, [data], cfg, stats, failures, seen, 'utf8-samples')
                         stats.nontrivial_counted += count_nontrivial(data, 'utf-8')
+                        # bulk reading of the same bytes == reference
+                        path = os.path.join(scratch, 'c20_sample.csv')
+                        with open(path, 'wb') as f:
+                            f.write(data)
+                        got_bulk = norm(drv.call(dict(cfg, cmd='read_csv', mode='bulk', path=path)))
+                        exp = expected(data.decode('utf-8'), d, p, c, h, '\ufeff')
+                        stats.evaluations += 1
+                        if got_bulk != exp and ('bulk', p) not in seen:
+                            seen.add(('bulk', p))
+                            failures.append({'leg': 'utf8-samples', 'clause': 'bulk-vs-reference', 'detail': {'hex': data.hex(), 'cfg': cfg, 'got': got_bulk, 'expected': exp}, 'case': {'kind': 'bytes', 'hex': data.hex(), 'cfg': cfg}})
             stats.samples.append({'utf8_sample': data.decode('utf-8'), 'bytes': len(data), 'partitions': 1 << (len(data) - 1)})
         for data in BAD_SAMPLES:
             for p, d in POLICIES:
